@@ -2135,6 +2135,12 @@ func (m *Machine) processQueue() Result {
 	}
 	m.queueMx.Unlock()
 
+	// a mutation queued after the loop's last length check, but before
+	// queueProcessing got released, has lost the CAS: pick it up now
+	if m.queueLen.Load() > 0 && !m.disposing.Load() {
+		m.processQueue()
+	}
+
 	if len(ret) == 0 {
 		return Canceled
 	}
